@@ -58,7 +58,7 @@ def rand_terms(rng, n, deg2, nterms=None):
 def build(rng, kind=None):
     """a real model object with history; returns (M, labels, case description)"""
     kind = kind or rng.choice(ALL)
-    L = Labels("int" if kind in MATRIX else rng.choice(Labels.STYLES))
+    L = Labels("int" if kind in MATRIX else rng.choice(Labels.STYLES_X))
     n = rng.randint(1, 5)
     desc = {"kind": kind, "labels": L.style, "n": n, "steps": []}
     M = cls_of(kind)()
